@@ -1298,6 +1298,12 @@ def triple_rule(ctx, syn, rid="C01.TRIPLE"):
         r.hit("remove")
         if (row(m, 1, 2), row(m, 2, 1), row(m, 1, 1)) != ([8], [6], [7]):
             ctx.report(r, "remove", "remove(1,2,5) leaves the rows (1,2)=%s (2,1)=%s (1,1)=%s; expected [8] [6] [7]" % (row(m, 1, 2), row(m, 2, 1), row(m, 1, 1)), fns[("TripleRelationMap", "remove")].file, fns[("TripleRelationMap", "remove")].line)
+        # removing a relation that is not there changes nothing - also not in a row that holds a single other value
+        call(m, "remove", 2, 1, 99)
+        n += 1
+        r.hit("remove-absent")
+        if row(m, 2, 1) != [6]:
+            ctx.report(r, "remove-absent", "remove(2,1,99) on the row (2,1)=[6] leaves %s: asking to remove a relation that is not in the row wipes the one that is (the annotation pre-removal asks this for targets it reaches through other annotations)" % row(m, 2, 1), fns[("TripleRelationMap", "remove")].file, fns[("TripleRelationMap", "remove")].line)
         call(m, "remove_second", 1, 2)
         n += 1
         got = (row(m, 1, 2), row(m, 2, 1), row(m, 1, 1), row(m, 2, 2))
@@ -1341,7 +1347,7 @@ def triple_rule(ctx, syn, rid="C01.TRIPLE"):
                 ctx.report(r, "extend", "after extend(%s) on a map that holds (0,3,4) the rows %s read back as %s: an entry of the batch whose first handle differs from the first entry's (another resource or dataset of the same annotation) is filed in the wrong row or dropped, and the annotation is not found from that target" % (batch, ", ".join(wrong), [got[eval(k)] for k in wrong]), ext[0].file, ext[0].line)
         except (Unknown, Panic) as e:
             ctx.report(r, "unevaluated:extend", "Extend for TripleRelationMap could not be evaluated (%s): that a batch is filed row by row is not established" % e, ext[0].file, ext[0].line)
-    ctx.floor(r, n, 4, "TripleRelationMap operations evaluated")
+    ctx.floor(r, n, 5, "TripleRelationMap operations evaluated")
 
 
 def SInt_(v):
